@@ -60,8 +60,15 @@ def supervise(a, argv):
         sys.exit(130)
     signal.signal(signal.SIGINT, forward)
     signal.signal(signal.SIGTERM, forward)
+    verif = os.path.dirname(os.path.dirname(os.path.abspath(__file__)))
+
+    def sweep():                        # scratch directory of the worker (left behind when it is killed or fails)
+        import shutil
+        if not os.environ.get("VERIF_KEEP_WORK"):
+            shutil.rmtree(os.path.join(verif, ".work", f"p{p.pid}"), ignore_errors=True)
     try:
         rc = p.wait(timeout=budget)
+        sweep()
         sys.exit(rc if rc >= 0 else 2)
     except subprocess.TimeoutExpired:
         pass
@@ -74,7 +81,7 @@ def supervise(a, argv):
         os.killpg(p.pid, signal.SIGKILL)
     except Exception:  # noqa
         pass
-    verif = os.path.dirname(os.path.dirname(os.path.abspath(__file__)))
+    sweep()
     os.makedirs(os.path.join(verif, "replays"), exist_ok=True)
     path = os.path.join(verif, "replays", f"{a.pid}-nontermination.json")
     with open(path, "w") as f:
